@@ -14,6 +14,7 @@ struct Shared {
     iters: AtomicUsize,
     polls: AtomicUsize,
     complete: AtomicBool,
+    self_wake: AtomicUsize,
     waker: Mutex<Option<Waker>>,
     result: Mutex<String>,
     signal: Mutex<Option<calloop::LoopSignal>>,
@@ -26,6 +27,13 @@ impl Future for Fut {
     fn poll(self: Pin<&mut Self>, cx: &mut Context<'_>) -> Poll<u32> {
         self.0.polls.fetch_add(1, Ordering::SeqCst);
         *self.0.waker.lock().unwrap() = Some(cx.waker().clone());
+        // a future of the `yield_now` kind wakes itself before returning Pending
+        if self.0.self_wake.load(Ordering::SeqCst) > 0 {
+            self.0.self_wake.fetch_sub(1, Ordering::SeqCst);
+            cx.waker().wake_by_ref();
+        }
+        // other threads may run while the future is being polled
+        calloop::verif::yield_point("fut.poll");
         if self.0.complete.load(Ordering::SeqCst) {
             Poll::Ready(7)
         } else {
@@ -34,7 +42,7 @@ impl Future for Fut {
     }
 }
 
-fn run_case(name: &str, block_on: bool, progs: Vec<Vec<String>>, schedule: Vec<usize>, out: &mut impl Write) {
+fn run_case(name: &str, block_on: bool, self_wake: usize, progs: Vec<Vec<String>>, schedule: Vec<usize>, out: &mut impl Write) {
     writeln!(out, "case {}", name).unwrap();
     let n = progs.len();
     let sched = Sched::global();
@@ -43,6 +51,7 @@ fn run_case(name: &str, block_on: bool, progs: Vec<Vec<String>>, schedule: Vec<u
         iters: AtomicUsize::new(0),
         polls: AtomicUsize::new(0),
         complete: AtomicBool::new(false),
+        self_wake: AtomicUsize::new(self_wake),
         waker: Mutex::new(None),
         result: Mutex::new("none".into()),
         signal: Mutex::new(None),
@@ -163,6 +172,7 @@ pub fn run() -> i32 {
     let mut block_on = false;
     let mut progs: Vec<Vec<String>> = Vec::new();
     let mut schedule: Vec<usize> = Vec::new();
+    let mut self_wake = 0usize;
     let parse_prog = |s: &str| -> Vec<String> { s.split(';').map(|x| x.trim().to_string()).filter(|x| !x.is_empty()).collect() };
     for line in stdin.lock().lines() {
         let line = line.unwrap();
@@ -175,10 +185,12 @@ pub fn run() -> i32 {
             "case" => {
                 name = w.get(1).unwrap_or(&"").to_string();
                 block_on = false;
+                self_wake = 0;
                 progs.clear();
                 schedule.clear();
             }
             "mode" => block_on = w[1] == "blockon",
+            "selfwake" => self_wake = w[1].parse().unwrap_or(0),
             "threads" => progs = vec![Vec::new(); w[1].parse().unwrap()],
             "thread" => {
                 let i: usize = w[1].trim_end_matches(':').parse().unwrap();
@@ -188,7 +200,7 @@ pub fn run() -> i32 {
                 }
             }
             "sched" => schedule = w[1..].iter().filter_map(|x| x.parse().ok()).collect(),
-            "end" => run_case(&name, block_on, progs.clone(), schedule.clone(), &mut out),
+            "end" => run_case(&name, block_on, self_wake, progs.clone(), schedule.clone(), &mut out),
             _ => {}
         }
     }
